@@ -84,6 +84,13 @@ class Mon:
             r_ = cpu.registers
             desc['hostile_mmu'] = {k: getattr(getattr(r_, k), 'value', getattr(r_, k)) for k in HOSTILE_REGS if hasattr(r_, k)}
             self.bump('steps_with_hostile_mmu_setup')
+        if rng.random() < 0.04:
+            # the J bit is reachable by an exception return (SPSR values are software-controlled): Jazelle (J=1,T=0) and
+            # ThumbEE (J=1,T=1) states must step without a host error too, whatever they then do
+            cpu.registers.cpsr.j = 1
+            desc['j'] = 1
+            desc['cpsr'] = '%#010x' % cpu.registers.cpsr.value
+            self.bump('steps_from_jazelle_or_thumbee_state')
         pre_mode = cpu.registers.cpsr.m
         k, sig = scen.step(cpu)
         self.res['evaluations'] += 1
@@ -358,7 +365,7 @@ def programs(mon, spec):
                 break
             mon.bump('program_steps_' + k)
             # states reached by random code are not guaranteed valid: stop when the mode is illegal
-            if cpu.registers.bad_mode(cpu.registers.cpsr.m) or cpu.registers.cpsr.j:
+            if cpu.registers.bad_mode(cpu.registers.cpsr.m):
                 mon.bump('program_left_valid_state_space')
                 break
         mon.res['nontrivial'].add('prog|%s|%d' % (ctxkey[0], len(set(trace))))
